@@ -722,7 +722,12 @@ pub fn main_for(property: &str, body: impl FnOnce(&Run, Option<&Value>)) -> ! {
         println!("replay: violations={}", v);
         std::process::exit(if v > 0 { 1 } else { 0 });
     }
-    body(&run, None);
+    // a panic of the harness itself (outside a guarded call into the code under test) is a machinery
+    // error, never a verdict: violations already recorded still decide the exit code (1), otherwise 2
+    let r = std::panic::catch_unwind(std::panic::AssertUnwindSafe(|| body(&run, None)));
+    if r.is_err() {
+        run.machinery_error("the harness panicked outside a guarded call (message on stderr above)");
+    }
     let code = run.finish();
     std::process::exit(code);
 }
